@@ -2,6 +2,7 @@
 device kernel) is abstractly interpreted with symbolic arguments and compared, output by
 output, with the windowed-DFT definition (Appendix A.3 of DESIGN.md)."""
 import ast
+import os
 from fractions import Fraction as Fr
 
 from .symalg import X, KIND, ARRAY_KIND, mk_fn, mk_idx, mk_sum, compare, Unknown, C, INT_ARRAY_NAMES
@@ -236,7 +237,19 @@ def _has_p1_cond(v):
 
 
 def check_kernel(ctx, KE, fam, mode, backend, outputs=OUT, rule="R3-statistics"):
-    """compare the selected outputs of one kernel with the definition, in every K regime."""
+    """compare the selected outputs of one kernel with the definition, in every K regime (within a time budget per kernel)."""
+    from .report import limit
+    key = kernel_key(fam, mode, backend)
+    try:
+        with limit(float(os.environ.get("VERIF_KERNEL_BUDGET_S", "240")), key):
+            return _check_kernel(ctx, KE, fam, mode, backend, outputs, rule)
+    except Unknown as ex:
+        node = KE.repo.get(key)
+        ctx.unknown(f"{rule}", key, str(ex), KE.repo.where(key, node))
+        return UNKNOWN
+
+
+def _check_kernel(ctx, KE, fam, mode, backend, outputs=OUT, rule="R3-statistics"):
     key = kernel_key(fam, mode, backend)
     node = KE.repo.get(key)
     where = KE.repo.where(key, node)
